@@ -7,7 +7,7 @@ from vlib import chainspace as cs
 LEVEL = "exploration"
 RULE = ("Bounded-exhaustive: every sequence of length 0..N over link kinds {await coroutine, await types.coroutine "
         "generator, __await__ returning a coroutine wrapper, __await__ running a delegating generator, asend, __anext__, "
-        "async for, athrow, aclose} x terminal {trap, plain-iterator leaf} x outer kind {coroutine, generator-based "
+        "async for, athrow, aclose} x terminal {trap, plain-iterator leaf, falsy future-like leaf that is its own iterator} x outer kind {coroutine, generator-based "
         "coroutine} x {links suspend first themselves, or not}; plus pure yield-from generator chains; every suspension "
         "point k of each (chain rebuilt and advanced k steps), plus the exhausted state. Oracle: frames and line numbers of "
         "the traceback of an exception thrown into the root right after extraction. evaluations = (chain, position) "
@@ -134,12 +134,18 @@ def _suspended_on_leaf(ch, exp):
 
 
 def run(ctx):
+    import gc
     N = bounds(ctx.tier)["max_links"]
     idx = 0
+    # the unwind oracle listens to every frame exit during the throw: keep the cyclic collector (which may
+    # finalise async generators of earlier cases at any moment) out of that window
+    gc.disable()
     for spec in cs.specs(N):
         idx += 1
         if not ctx.mine(idx):
             continue
+        if idx % 64 == 0:
+            gc.collect()
         if spec[0]:
             ctx.count("distinct_nontrivial")
         ctx.count("chains")
@@ -180,5 +186,8 @@ def observe_k(spec, k):
 
 
 def replay(case):
+    import gc
+    gc.collect()
+    gc.disable()
     status, problems = observe_k(tuple(case["spec"][:1]) + tuple(case["spec"][1:]), case["k"])
     return [{"detail": p} for p in problems]
